@@ -21,4 +21,31 @@ PELaw == \A p \in LatM \X LatM : \A r \in [Rest -> {0, 2}] :
             LET full == [nm \in {"t", "k"} |-> IF nm \in DOMAIN b THEN b[nm] ELSE r[nm]] IN
             In(PE(ex, b), QOf(p[1], p[2], full)) = In(ex, QOf(p[1], p[2], full))
 FVLaw == FreeVars(PE(ex, b)) = FreeVars(ex) \ DOMAIN b
+(* Self-consistency of the denotations added for polygons, polyhedra and the general rotation (the oracle is checked against a
+   second, independent description of the same sets on a lattice with odd fine-unit offsets, i.e. off every boundary):
+     the L-shaped polygon = union of two rectangles; the square with a hole = square minus square; the clockwise ring = the counter-
+     clockwise one; the cube mesh = the box given by coordinate bounds; the tetrahedron = three lower bounds and one plane; the
+     two-axis rotation zx = rotation about x followed by rotation about z; four quarter turns = identity.                       *)
+Lat3 == {-777 + 222 * i : i \in 0..7}
+Q2(x, y) == [val |-> [nm \in {"x"} |-> <<x, y>>], w |-> 1]
+Q3(x, y, z) == [val |-> [nm \in {"y"} |-> <<x, y, z>>], w |-> 1]
+FineLat2 == {-895 + 64 * i : i \in 0..28}
+PolyL == Poly(<<RingL>>)
+LAsRects == Un(Par(V2(-8, -8), V2(8, -8), V2(-8, 0)), Par(V2(-8, -8), V2(0, -8), V2(-8, 8)))
+PolyHoleT == Poly(<<<<<<-10, -10>>, <<10, -10>>, <<10, 10>>, <<-10, 10>>>>, <<<<-2, -2>>, <<6, -2>>, <<6, 6>>, <<-2, 6>>>>>>)
+HoleAsCut == Cu(Par(V2(-10, -10), V2(10, -10), V2(-10, 10)), Par(V2(-2, -2), V2(6, -2), V2(-2, 6)))
+ASSUME \A p \in FineLat2 \X FineLat2 : In(PolyL, Q2(p[1], p[2])) = In(LAsRects, Q2(p[1], p[2]))
+ASSUME \A p \in FineLat2 \X FineLat2 : In(PolyHoleT, Q2(p[1], p[2])) = In(HoleAsCut, Q2(p[1], p[2]))
+ASSUME \A p \in FineLat2 \X FineLat2 : In(PolyL, Q2(p[1], p[2])) = In(Poly(<<[i \in 1..6 |-> RingL[7 - i]]>>), Q2(p[1], p[2]))
+ASSUME \A p \in Lat3 \X Lat3 \X Lat3 : In(MeshCube, Q3(p[1], p[2], p[3])) = (\A i \in 1..3 : p[i] >= -384 /\ p[i] <= 384)
+ASSUME \A p \in Lat3 \X Lat3 \X Lat3 : In(MeshTet, Q3(p[1], p[2], p[3])) = ((\A i \in 1..3 : p[i] >= -256) /\ p[1] + p[2] + p[3] <= 0)
+ASSUME \A p \in Lat3 \X Lat3 \X Lat3 : In(MeshTetIn, Q3(p[1], p[2], p[3])) = In(MeshTet, Q3(p[1], p[2], p[3]))
+ASSUME \A m \in {MeshBox, MeshTet}, p \in Lat3 \X Lat3 \X Lat3 :
+          In(Ro3(m, "zx", V3(2, -4, 2)), Q3(p[1], p[2], p[3])) = In(Ro3(Ro3(m, "x345", V3(2, -4, 2)), "z345", V3(2, -4, 2)), Q3(p[1], p[2], p[3]))
+ASSUME \A p \in FineLat2 \X FineLat2 : LET q == Par(V2(-8, -6), V2(4, -2), V2(-4, 6))  c == V2(2, -4) IN
+          In(Ro(Ro(Ro(Ro(q, "r90", c), "r90", c), "r90", c), "r90", c), Q2(p[1], p[2])) = In(q, Q2(p[1], p[2]))
+ASSUME \A m \in Meshes \cup {MeshBox} : MeshWF(m)
+\* volumes: shoelace / tetrahedra against the elementary values (L: 12, hole: 25 - 4 = 21, cube 27, tetrahedron 9/2)
+ASSUME Vol(PolyL, <<>>) = <<384, 0, 32>> /\ Vol(PolyHoleT, <<>>) = <<672, 0, 32>>
+ASSUME Vol(MeshCube, <<>>) = <<10368, 0, 384>> /\ Vol(MeshTet, <<>>) = <<1728, 0, 384>>
 =============================================================================
